@@ -52,7 +52,16 @@ func spellings(s string, latin bool) []variant {
 	if latin {
 		vs = append(vs, variant{"fullwidth", fullwidth(norm.NFC.String(s))})
 	}
-	return vs
+	// keep only spellings that decompose to the same text (x/text's composition pairs runes by their low 16 bits,
+	// so e.g. U+E0041 U+0303 "composes" to U+00C3); TLC establishes the equivalence again with its own NFKD
+	want := norm.NFKD.String(s)
+	out := vs[:0]
+	for _, v := range vs {
+		if norm.NFKD.String(v.s) == want {
+			out = append(out, v)
+		}
+	}
+	return out
 }
 
 // maxRunOK: the decomposed text has no run of more than 25 non-starters (the
@@ -194,6 +203,18 @@ func runSeeds(tier string, seed int64) {
 	for k := 0; k < nr; k++ {
 		emitSeed(randomUnicode(r, 1+r.intn(24)), randomUnicode(r, r.intn(16)), "random")
 	}
+	// every password length and every salt length across the SHA-512 padding and HMAC block boundaries
+	nl := 300
+	if q {
+		nl = 270
+	}
+	for n := 0; n <= nl; n++ {
+		if q && n > 140 && n%3 != 0 && !(n >= 230 && n <= 262) {
+			continue
+		}
+		emitSeed(strOfLen(r, n, true), "pw", "mlen")
+		emitSeed("abandon ability", strOfLen(r, n, n%2 == 0), "plen")
+	}
 	// F3 probes (known finding): starter + k identical marks
 	for _, k := range []int{31, 40, 61} {
 		emitSeed("abandon", "a"+strings.Repeat("́", k), "f3probe")
@@ -249,16 +270,8 @@ func langsForUnicode(tier string, seed int64) (fullLangs, sampleLangs []int) {
 	if tier != "quick" {
 		return all10, nil
 	}
-	// the lists whose words change under composition, rotating with the seed, plus a sample of the rest
-	nonAscii := []int{3, 5, 6, 7}
-	a := nonAscii[int(seed)%4]
-	b := nonAscii[(int(seed)+1)%4]
-	for _, l := range all10 {
-		if l != a && l != b {
-			sampleLangs = append(sampleLangs, l)
-		}
-	}
-	return []int{a, b}, sampleLangs
+	// the four lists whose words change under composition completely, a sample of the rest
+	return []int{3, 5, 6, 7}, []int{0, 1, 2, 4, 8, 9}
 }
 
 func runSeedGroups(tier string, seed int64) {
